@@ -178,7 +178,20 @@ def _jet_one(exe, fr, workdir):
     home, env = pipeline.prepare_home(workdir)
     rxs = [pipeline.Receiver() for _ in fr["refs"]]
     cmd = [exe, "--verbose", "--serve-port", str(pipeline.free_port()), "--deduplication", str(JET_WINDOW_MS)]
-    cmd += [f"tcp://127.0.0.1:{r.port}@{ref['s']}" for r, ref in zip(rxs, fr["refs"])]
+    if fr["id"] % 2 == 1:
+        # every other scenario: the sources come from the configuration file in the table form
+        # { address, port } (two receivers on ONE host, told apart by their ports only)
+        lines = ["verbose = false", "interactive = false", "prevent_sleep = false", "update_position = false"]
+        for r, ref in zip(rxs, fr["refs"]):
+            la, lo = ref["s"].split(",")
+            lines += ["", "[[sources]]", f'tcp = {{ address = "127.0.0.1", port = {r.port} }}',
+                      "latitude = " + la, "longitude = " + lo]
+        cfgd = os.path.join(home, ".config", "jet1090")
+        os.makedirs(cfgd, exist_ok=True)
+        with open(os.path.join(cfgd, "config.toml"), "w") as f:
+            f.write("\n".join(lines) + "\n")
+    else:
+        cmd += [f"tcp://127.0.0.1:{r.port}@{ref['s']}" for r, ref in zip(rxs, fr["refs"])]
     errf = open(os.path.join(workdir, "stderr.txt"), "wb")
     proc = subprocess.Popen(cmd, stdin=subprocess.DEVNULL, stdout=subprocess.PIPE, stderr=errf, env=env, cwd=home)
     lines, lock = [], threading.Lock()
